@@ -718,6 +718,35 @@ Qed.
 Lemma init_inv : forall hl tl, JInv (init hl tl) (J [] [] []).
 Proof. intros. constructor; cbn; try reflexivity. constructor. Qed.
 
+(* a directory that already holds rolled files numbered base, base+1, ... (any base) *)
+Lemma init_at_inv : forall hl tl base (pre : list (list bytes)),
+  Forall okrec (concat pre) -> JInv (init_at crc hl tl base pre) (J pre [] []).
+Proof.
+  intros hl tl base pre H. constructor; cbn [jf js ju init_at files head buf synced app].
+  - reflexivity.
+  - reflexivity.
+  - reflexivity.
+  - rewrite app_nil_r. exact H.
+Qed.
+
+(* the numbering: rotation gives the old head the number maxIndex and opens number maxIndex+1;
+   the indexed files stay numbered contiguously up to maxIndex-1 whatever the base *)
+Lemma disk_indices_init_at : forall hl tl base (pre : list (list bytes)),
+  disk_indices (init_at crc hl tl base pre) = map (fun k => base + Z.of_nat k) (seq 0 (length pre)).
+Proof.
+  intros. unfold disk_indices, init_at. cbn [files gmax]. rewrite map_length.
+  apply map_ext. intro k. lia.
+Qed.
+Lemma disk_indices_rotate : forall s,
+  disk_indices (rotate s) = disk_indices s ++ [gmax s].
+Proof.
+  intro s. unfold disk_indices, rotate. cbn [files gmax]. rewrite app_length. cbn [length].
+  replace (length (files s) + 1)%nat with (S (length (files s))) by lia.
+  rewrite seq_S, map_app. cbn [map]. f_equal.
+  - apply map_ext. intro k. lia.
+  - f_equal. lia.
+Qed.
+
 (* what a journal step can do to the durable part (files and synced records of the head):
    drop at most maxFilesToRemove whole oldest files, append to the newest segment, open a new
    empty segment behind it — nothing else *)
